@@ -1,5 +1,6 @@
 """C15 — at-most-one (binary/log) encoding kernel: real AtMostOnceTracker executed natively, emitted CNF decided by z3."""
 import json
+import cert_prop
 import os
 import re
 import shutil
@@ -136,6 +137,29 @@ def run(tier, seed, only):
         for e in errors:
             log("INCONCLUSIVE property=%s %s" % (PROP, e))
 
+    # ---- the encoder's REGISTRATION of candidates (encoding.rs), through the certificate engine ---------------
+    cert_cov = {}
+    if not only:
+        try:
+            csc = Scratch("c15_cert")
+            cbins = cert_prop.build_driver(csc)
+            summary = cert_prop.sweep(cbins, PROP, tier, seed)
+            cv, ck = [], []
+            cert_prop.process(PROP, summary, cv, ck, csc)
+            cert_cov = cert_prop.coverage_of(summary)
+            cert_cov["cert_samples"] = summary["samples"][:2]
+            for v in cv:
+                reported.append(v["replay"])
+                rc = 1
+            if summary["relevant"] < 2 and rc == 0:
+                rc = 2
+                log("INCONCLUSIVE property=%s certificate sweep did not produce forbid clauses" % PROP)
+            csc.cleanup()
+        except Inconclusive as e:
+            if rc == 0:
+                rc = 2
+            log("INCONCLUSIVE property=%s certificate engine: %s" % (PROP, e))
+
     b = "src/solver/binary_encoding.rs"
     coverage = {
         "evaluations": totals["q1"] + totals["q2"] + totals["q3"] + totals["cvc5_q1"],
@@ -156,7 +180,9 @@ def run(tier, seed, only):
         "inconclusive": errors,
         "exhaustive": False,
     }
-    assumptions = [
+    coverage.update(cert_cov)
+    assumptions = cert_prop.CERT_ASSUMPTIONS + [
+        "certificate part: for every enumerated universe the forbid clauses the REAL encoder emitted per package are decided by z3: no two registered candidates together (all helper values), every single one selectable, every pair of candidates revealed through requirements is excluded by the whole clause database",
         "the real binary_encoding.rs is executed natively (#[path]-included, pinned 1.86); its control flow depends only on how many distinct variables were added, so one run per n is its complete symbolic execution for that n",
         "z3 decides the emitted CNF over all assignments of candidates and helpers; cvc5 re-decides Q1 at boundary sizes",
         "Q2(n,i) is skipped when no clause mentioning x_i was added since it was last asked (clauses of other candidates are satisfied by their negative literals); all i are asked for n <= q2_all_i_up_to_n and at boundary sizes",
@@ -170,6 +196,8 @@ def run(tier, seed, only):
 
 
 def replay(path):
+    if cert_prop.is_cert_replay(path):
+        return cert_prop.replay_cert(PROP, path)
     v = json.load(open(path))
     sc = Scratch("c15_replay")
     os.makedirs(os.path.join(sc.dir, "logs"), exist_ok=True)
